@@ -12,7 +12,7 @@ def gen_line(rng, regdefs):
     if k < 0.12:
         return rng.choice(["", " ", "   ", "\t"])
     if k < 0.25:
-        return "".join(rng.choice("abAB1 .;-xyz\r\x0c") for _ in range(rng.randint(1, 14)))
+        return "".join(rng.choice("abAB1 .;-xyz\r\x0cé€") for _ in range(rng.randint(1, 14)))
     r = rng.choice(regdefs)
     from cfinterface.components.line import Line
     from cfinterface.components.literalfield import LiteralField
@@ -43,7 +43,7 @@ class CHECK(Check):
             "and identifier windows >= the identifier length so that declaration order matters x text contents of 0-12 "
             "lines from a grammar (well-formed lines written by the types, truncated, extended, identifier shifted out of "
             "the window, one character corrupted, blank, garbage) with and without final newline; plus every content of "
-            "<=3 lines over a 6-line pool for 12 fixed register lists (complete). Observed: type and data of every "
+            "<=3 lines over a 6-line pool for 12 fixed register lists (complete). A third of the contents are read from a file on disk (utf-8) instead of in memory. Observed: type and data of every "
             "element of RegisterFile.read(content).data. non-trivial = at least one typed and one default element or "
             ">= 2 candidate types match a line; distinct = hash")
 
@@ -72,9 +72,17 @@ class CHECK(Check):
     def impl(self, case):
         regs = [reglib.mk_register_class(rd, i) for i, rd in enumerate(case["regdefs"])]
         F = reglib.mk_file_class(regs)
+        import os, hashlib
+        arg = case["content"]
+        if int(hashlib.sha1(repr(case).encode()).hexdigest(), 16) % 3 == 0 and "\r" not in arg and "\x0c" not in arg and arg:
+            d = os.path.join(lib.SCRATCH, "tmp_c04")
+            os.makedirs(d, exist_ok=True)
+            arg = os.path.join(d, "in.txt")
+            with open(arg, "w", encoding="utf-8", newline="") as fh:
+                fh.write(case["content"])
         try:
             with lib.budget(3000 + 400 * (len(case["content"]) + 1)):
-                f = F.read(case["content"])
+                f = F.read(arg)
                 elems = reglib.canon_elems(f.data, regs, cap=len(case["content"]) + 5)
         except lib.BudgetExceeded:
             return {"raised": "BudgetExceeded"}
